@@ -425,8 +425,15 @@ impl Prop for C06 {
             out.bump("vectors_with_signal_target");
         }
         // 2. the low 9 bits of the word never matter; an event without declared transitions never moves
-        for _ in 0..2048 {
-            let kk = r.below(N) as u32;
+        // random draws, and the draws where it matters most: both ends of the draw space and both sides
+        // of every boundary between outcomes (a draw formed from all 32 bits would round up to 1.0 at the top)
+        let mut low_bit_draws: Vec<u32> = vec![0, 1, N as u32 - 1, N as u32 - 2];
+        for f in first_of.iter().flatten() {
+            low_bit_draws.push(*f);
+            low_bit_draws.push(f.saturating_sub(1));
+        }
+        low_bit_draws.extend((0..2048).map(|_| r.below(N) as u32));
+        for kk in low_bit_draws {
             rng.word = kk << 9;
             let base = st.sample_state(e, &mut rng);
             for low in [1u32, 0x1ff, 0x100] {
